@@ -95,21 +95,21 @@ func runC15(c *Ctx) {
 
 	if wr := c.need(p, "C15.E", "utils/tcpbridge/connection.(*WebsocketNetConn).Write"); wr != nil {
 		if wm := c.UniqueCall("C15.E", p, wr, false, "(*github.com/gorilla/websocket.Conn).WriteMessage"); wm != nil {
-			a := CallOf(wm).Args
+			a := PArgs(CallOf(wm))
 			c.Check("C15.E", "Write:text-message", p, wm.Pos(), isConstInt(a[1], 1), "one websocket.TextMessage per Write", "Write does not send a TextMessage: the reading side only accepts text messages and silently skips everything else")
 			okEnc := false
 			if cv, ok := a[2].(*ssa.Convert); ok {
 				if call := CallResult(cv.X, 0, "encoding/hex.EncodeToString"); call != nil {
-					okEnc = PathOf(call.Call.Args[0]) == P(wr, 1)
+					okEnc = PathOf(PArgs(&call.Call)[0]) == P(wr, 1)
 				}
 			}
 			// … or hex.Encode(dst, bs) into a slice made for it, sent whole
 			if encs := Calls(wr, "encoding/hex.Encode"); !okEnc && len(encs) == 1 && Dominates(encs[0], wm) {
-				ea := CallOf(encs[0]).Args
+				ea := PArgs(CallOf(encs[0]))
 				if mk, isMk := Peel(ea[0]).(*ssa.MakeSlice); isMk && PathOf(ea[1]) == P(wr, 1) {
 					if el := CallResult(mk.Len, 0, "encoding/hex.EncodedLen"); el != nil {
-						if ln, isLen := el.Call.Args[0].(*ssa.Call); isLen {
-							if b, isB := ln.Call.Value.(*ssa.Builtin); isB && b.Name() == "len" && PathOf(ln.Call.Args[0]) == P(wr, 1) {
+						if ln, isLen := PArgs(&el.Call)[0].(*ssa.Call); isLen {
+							if b, isB := ln.Call.Value.(*ssa.Builtin); isB && b.Name() == "len" && PathOf(PArgs(&ln.Call)[0]) == P(wr, 1) {
 								okEnc = Peel(a[2]) == ssa.Value(mk)
 							}
 						}
@@ -125,7 +125,7 @@ func runC15(c *Ctx) {
 				continue
 			}
 			if call, ok := ReturnValue(r, 0).(*ssa.Call); ok {
-				if b, ok := call.Call.Value.(*ssa.Builtin); ok && b.Name() == "len" && PathOf(call.Call.Args[0]) == P(wr, 1) {
+				if b, ok := call.Call.Value.(*ssa.Builtin); ok && b.Name() == "len" && PathOf(PArgs(&call.Call)[0]) == P(wr, 1) {
 					okLen = true
 				}
 			}
@@ -138,9 +138,9 @@ func runC15(c *Ctx) {
 		if rm != nil && dec != nil {
 			okSrc := false
 			inPlace := CalleeName(CallOf(dec)) == "encoding/hex.Decode"
-			src := CallOf(dec).Args[0]
+			src := PArgs(CallOf(dec))[0]
 			if inPlace {
-				src = CallOf(dec).Args[1]
+				src = PArgs(CallOf(dec))[1]
 			}
 			if cv, ok := src.(*ssa.Convert); ok {
 				src = cv.X
@@ -155,7 +155,7 @@ func runC15(c *Ctx) {
 					return ok && e.Tuple == dec.(ssa.Value) && e.Index == 0
 				}
 				sl, ok := v.(*ssa.Slice)
-				if !ok || sl.Low != nil || sl.High == nil || !SameValue(sl.X, CallOf(dec).Args[0]) {
+				if !ok || sl.Low != nil || sl.High == nil || !SameValue(sl.X, PArgs(CallOf(dec))[0]) {
 					return false
 				}
 				e, ok := sl.High.(*ssa.Extract)
@@ -169,7 +169,7 @@ func runC15(c *Ctx) {
 					}
 					if call, ok := v.(*ssa.Call); ok {
 						if b, ok := call.Call.Value.(*ssa.Builtin); ok && b.Name() == "len" {
-							if _, fld, ok := FieldLoad(call.Call.Args[0]); ok && fld == "bufferedMsg" {
+							if _, fld, ok := FieldLoad(PArgs(&call.Call)[0]); ok && fld == "bufferedMsg" {
 								return IntC(buffered), true
 							}
 						}
@@ -263,7 +263,7 @@ func runC15(c *Ctx) {
 		ok := len(bs.Copies) == 2
 		why := fmt.Sprintf("%d copy goroutines", len(bs.Copies))
 		if ok {
-			a0, a1 := CallOf(bs.Copies[0]).Args, CallOf(bs.Copies[1]).Args
+			a0, a1 := PArgs(CallOf(bs.Copies[0])), PArgs(CallOf(bs.Copies[1]))
 			d0, s0 := connRoots(a0[0]), connRoots(a0[1])
 			d1, s1 := connRoots(a1[0]), connRoots(a1[1])
 			if !(sharesRoot(d0, s1) && sharesRoot(s0, d1)) || sharesRoot(d0, s0) {
@@ -283,7 +283,7 @@ func runC15(c *Ctx) {
 		}
 		okwg := len(adds) == 1 && len(Calls(bs.Fn, "(*sync.WaitGroup).Wait")) == 1
 		if okwg {
-			n, isC := ConstInt(CallOf(adds[0]).Args[1])
+			n, isC := ConstInt(PArgs(CallOf(adds[0]))[1])
 			okwg = isC && int(n) == dones && dones == len(bs.Gos)
 		}
 		c.Check("C15.P", name+":waitgroup-pairing", p, bs.Fn.Pos(), okwg, "wg.Add(n) equals the number of goroutines that defer wg.Done()", name+": wg.Add does not match the goroutines that call Done (the bridge hangs or returns while a direction is still copying)")
@@ -353,7 +353,7 @@ func runC15(c *Ctx) {
 	if fm := c.need(p, "C15.H", "utils/tcpbridge/tcp-bridge-frontend.main"); fm != nil {
 		ok := false
 		for _, call := range Calls(fm, "path.Join") {
-			SliceBack(CallOf(call).Args[0], func(v ssa.Value) bool {
+			SliceBack(PArgs(CallOf(call))[0], func(v ssa.Value) bool {
 				if s, isC := ConstString(v); isC && s == streamingPathConst(p) && s != "" {
 					ok = true
 				}
@@ -448,7 +448,7 @@ func runC16(c *Ctx) {
 		name := FuncName(bs.Fn)
 		for k, cp := range bs.Copies {
 			g := bs.Gos[k]
-			a := CallOf(cp).Args
+			a := PArgs(CallOf(cp))
 			dst, src := connRoots(a[0]), connRoots(a[1])
 			// on every path from the Copy to the goroutine's return a close of dst happens:
 			// either a defer registered before the copy, or a call after it
